@@ -7,8 +7,16 @@ from ..model import Expr, In, Ref, Program, Step
 
 
 def base_program(rng):
-    shape = rng.choice(["chain", "diamond", "fan_in", "wait_for", "enabled", "foreach", "foreach_after", "random_dag", "deploy_expr"])
-    steps, outs = gen.SHAPES[shape](rng)
+    shape = rng.choice(["chain", "diamond", "fan_in", "wait_for", "enabled", "foreach", "foreach_after", "random_dag", "deploy_expr", "functions", "functions"])
+    if shape == "functions":
+        # values computed by built-in functions (a table shared by all runs) in the output and in a step input
+        from ..model import Call
+        a = gen.plugin_step("a", Expr(Call("toUpper", In("tag"))), extra_input={"a": Expr(Call("bindConstants", Ref("w", "outputs", "success", "l"), In("tag")))})
+        w = gen.plugin_step("w", Expr(In("tag")), extra_input={"l": [Expr(In("tag")), "k1", "k2"]})
+        steps = [w, a]
+        outs = {"success": {"bound": Expr(Call("bindConstants", Ref("w", "outputs", "success", "l"), In("tag"))), "a": Expr(Ref("a", "outputs", "success"))}}
+    else:
+        steps, outs = gen.SHAPES[shape](rng)
     # outputs on failure paths so that different runs legitimately end differently
     for s in steps:
         if s.kind == "plugin":
